@@ -24,6 +24,10 @@ CASEDIR = os.path.join(COQ, '_cases')
 AUDITDIR = os.path.join(COQ, '_audit')
 COQ_TIMEOUT = int(os.environ.get('VERIF_COQ_TIMEOUT', '900'))
 NPROC = min(16, os.cpu_count() or 4)
+# runs against another checkout (VERIF_REPO=<mutated worktree>) must not overwrite the evidence of /repo
+_MUT = os.path.abspath(REPO) != '/repo'
+EVIDENCE_DIR = os.path.join(VERIF, 'scratch', 'evidence') if _MUT else os.path.join(VERIF, 'evidence')
+REPLAY_DIR = os.path.join(VERIF, 'scratch', 'replays') if _MUT else os.path.join(VERIF, 'replays')
 
 FORBIDDEN = re.compile(
     r'\b(Admitted|admit|Axiom|Axioms|Parameter|Parameters|Conjecture|Conjectures|Admit Obligations)\b'
@@ -219,12 +223,12 @@ class Check:
         self.broken = []            # names of theorems / correspondences that no longer check
         self.viol_by_what = {}
         self.suppressed = 0
-        os.makedirs(os.path.join(VERIF, 'evidence'), exist_ok=True)
-        os.makedirs(os.path.join(VERIF, 'replays'), exist_ok=True)
+        os.makedirs(EVIDENCE_DIR, exist_ok=True)
+        os.makedirs(REPLAY_DIR, exist_ok=True)
         os.makedirs(CASEDIR, exist_ok=True)
         self.known_findings = [k for k in load_known() if k.get('property') == prop]
         import glob
-        for old in glob.glob(os.path.join(VERIF, 'replays', prop + '-*.json')):
+        for old in glob.glob(os.path.join(REPLAY_DIR, prop + '-*.json')):
             os.unlink(old)
 
     # ------------------------------------------------------------------ budget
@@ -330,7 +334,7 @@ class Check:
     # ------------------------------------------------------------------ verdicts
     def write_replay(self, obj):
         self.replay_n += 1
-        path = os.path.join(VERIF, 'replays', '%s-%d-%d.json' % (self.prop, self.seed, self.replay_n))
+        path = os.path.join(REPLAY_DIR, '%s-%d-%d.json' % (self.prop, self.seed, self.replay_n))
         obj = dict(obj)
         obj.setdefault('property', self.prop)
         obj.setdefault('seed', self.seed)
@@ -402,7 +406,7 @@ class Check:
             'wall_s': round(wall, 2),
             'violations': len(self.violations) + self.suppressed,
         }
-        with open(os.path.join(VERIF, 'evidence', self.prop + '.json'), 'w') as f:
+        with open(os.path.join(EVIDENCE_DIR, self.prop + '.json'), 'w') as f:
             json.dump(ev, f, indent=1, default=repr)
         for line in self.known_lines:
             print(line)
